@@ -323,6 +323,12 @@ def run_unit(unit, case, tier="quick"):
         # side obligations (safety)
         safety = ObResult(f"{uname}:safety")
         side = ctx.state.side
+        # a unit that re-uses the setup of another property's unit (same AST, same symbolic inputs) may leave the side
+        # obligations to their owner: then NO safety obligation is emitted here (nothing is claimed), only the count is recorded
+        side_owner = getattr(unit, "side_obligations_owner", None)
+        if side_owner:
+            res["side_obligations_left_to"] = {"owner": side_owner, "count": len(side)}
+            side = []
         seen = set()
         for so in side:
             assum = list(so.pc) if getattr(so, "explicit", False) else list(ctx.state.facts) + list(so.pc)
@@ -333,7 +339,7 @@ def run_unit(unit, case, tier="quick"):
             v = solve.prove(assum, so.cond, timeout, _opts(unit.solver_opts, ctx))
             v.reason = (v.reason + f" {so.kind} at {so.where}").strip()
             safety.add(v, so.kind)
-        if not side:
+        if not side and not side_owner:
             safety.add(solve.Verdict(solve.PROVED, "engine", 0, reason="no side obligations"))
         # hidden state: the function (and the repo helpers inlined into it) must not use module-level mutable state
         hs = ObResult(f"{uname}:no-module-level-mutable-state")
@@ -343,7 +349,8 @@ def run_unit(unit, case, tier="quick"):
         res["obligations"].append(hs.finish().as_dict())
         res["obligations"].append(excfree.finish().as_dict())
         res["obligations"].append(cover.finish().as_dict())
-        res["obligations"].append(safety.finish().as_dict())
+        if not side_owner:
+            res["obligations"].append(safety.finish().as_dict())
         for cn, ob in clause_res.items():
             res["obligations"].append(ob.finish().as_dict())
         res["summaries_used"] = sorted(interp.used_summaries)
